@@ -372,3 +372,396 @@ func SortUsed(c *core.Ctx, rule string, pkgs []*packages.Package) {
 	c.Add(rule, "scan", token.NoPos, core.Discharged, itoa(n)+" calls of value-returning Sort functions, "+itoa(bad)+" discard the result")
 	c.Floor(rule, "calls of value-returning Sort functions", n, 10)
 }
+
+// ---------------------------------------------------------------- R-FOLDSTOP
+
+// FoldStop: a fold over a cursor with a monadic step result consults the cursor again only after testing that result.
+func FoldStop(c *core.Ctx, rule string, pkgs []*packages.Package, floor int) {
+	c.Rule(rule, "in a function that folds a cursor (fp.Iterator / fp.List) with a user step function returning Try/Option/Either: every path from a step result `v = f(…)` to the next consultation of the cursor (HasNext/Next/Head/Tail…) passes a condition that examines v — after a failed step no further element is pulled and no call-back belonging to a later element runs")
+	n := 0
+	for _, fb := range funcBodies(c, pkgs) {
+		if fb.Lit != nil || fb.Decl == nil {
+			continue
+		}
+		info := fb.Pkg.TypesInfo
+		// parameters: cursors and step functions
+		cursors := map[types.Object]bool{}
+		steps := map[types.Object]bool{}
+		for _, f := range fb.Type.Params.List {
+			for _, nm := range f.Names {
+				o := info.Defs[nm]
+				if o == nil {
+					continue
+				}
+				if cursorKind(o.Type()) != "" {
+					cursors[o] = true
+				}
+				if sig, ok := o.Type().Underlying().(*types.Signature); ok && sig.Results().Len() == 1 && monadKind(sig.Results().At(0).Type()) != "" {
+					steps[o] = true
+				}
+			}
+		}
+		if fb.Decl.Recv != nil && len(fb.Decl.Recv.List) == 1 && len(fb.Decl.Recv.List[0].Names) == 1 {
+			if o := info.Defs[fb.Decl.Recv.List[0].Names[0]]; o != nil && cursorKind(o.Type()) != "" {
+				cursors[o] = true
+			}
+		}
+		if len(cursors) == 0 || len(steps) == 0 {
+			continue
+		}
+		// local aliases of cursors (cursor := list; cursor = cursor.Tail())
+		ast.Inspect(fb.Body, func(x ast.Node) bool {
+			if as, ok := x.(*ast.AssignStmt); ok && len(as.Lhs) == len(as.Rhs) {
+				for i, l := range as.Lhs {
+					if o := objOf(info, l); o != nil && cursorKind(o.Type()) != "" {
+						if nodeContains(as.Rhs[i], true, func(y ast.Node) bool {
+							id, ok := y.(*ast.Ident)
+							return ok && cursors[info.Uses[id]]
+						}) {
+							cursors[o] = true
+						}
+					}
+				}
+			}
+			return true
+		})
+		consults := func(nd ast.Node) bool {
+			return nodeContains(nd, true, func(y ast.Node) bool {
+				call, ok := y.(*ast.CallExpr)
+				if !ok {
+					return false
+				}
+				sel, ok := ast.Unparen(call.Fun).(*ast.SelectorExpr)
+				return ok && cursors[objOf(info, sel.X)]
+			})
+		}
+		g := newCFG(c, fb)
+		k := 0
+		for _, b := range g.Blocks {
+			if !b.Live {
+				continue
+			}
+			for i, nd := range b.Nodes {
+				as, ok := nd.(*ast.AssignStmt)
+				if !ok || len(as.Lhs) != len(as.Rhs) {
+					continue
+				}
+				for j, r := range as.Rhs {
+					call, ok := ast.Unparen(r).(*ast.CallExpr)
+					if !ok || !steps[objOf(info, call.Fun)] {
+						continue
+					}
+					v := objOf(info, as.Lhs[j])
+					k++
+					n++
+					key := fb.Name + "/step#" + itoa(k)
+					if v == nil {
+						c.Add(rule, key, as.Pos(), core.Violated, "the step result of "+exprString(call)+" is not bound to a variable: it cannot be tested before the next element is pulled")
+						continue
+					}
+					guard := func(x ast.Node) bool {
+						return isCondNode(x) && nodeContains(x, true, func(y ast.Node) bool {
+							id, ok := y.(*ast.Ident)
+							return ok && info.Uses[id] == v
+						})
+					}
+					if hit := unguardedReach(b, i, consults, guard); hit != nil {
+						c.Add(rule, key, hit.Pos(), core.Violated, "after `"+nodeString(c, as)+"` the cursor is consulted again (`"+nodeString(c, hit)+"`) on a path that has not tested "+v.Name()+": when the step fails one more element is pulled (and the call-backs behind a lazy source run for it)")
+					} else {
+						c.Add(rule, key, as.Pos(), core.Discharged, "the next pull is behind a test of "+v.Name())
+					}
+				}
+			}
+		}
+	}
+	c.Floor(rule, "monadic fold steps over a cursor", n, floor)
+}
+
+// ---------------------------------------------------------------- R-FRESH
+
+// CloneFresh: what a clone closure returns is allocated by that call.
+func CloneFresh(c *core.Ctx, rule string, p *packages.Package, floor int) {
+	c.Rule(rule, "a clone closure (func(T) T literal of package clone) never returns the address of, or a reference held in, a variable captured from the enclosing function: such a cell exists once per instance, so all clones made through the instance share it (the second Clone overwrites the first clone)")
+	n := 0
+	for _, fb := range funcBodies(c, []*packages.Package{p}) {
+		if fb.Lit == nil {
+			continue
+		}
+		info := fb.Pkg.TypesInfo
+		tv, ok := info.Types[fb.Lit]
+		if !ok {
+			continue
+		}
+		sig, _ := tv.Type.Underlying().(*types.Signature)
+		if sig == nil || sig.Params().Len() != 1 || sig.Results().Len() != 1 || !types.Identical(sig.Params().At(0).Type(), sig.Results().At(0).Type()) {
+			continue
+		}
+		n++
+		captured := func(o types.Object) bool {
+			v, ok := o.(*types.Var)
+			if !ok || v.Pkg() == nil || v.Parent() == v.Pkg().Scope() {
+				return false
+			}
+			return v.Pos() < fb.Lit.Pos() || v.Pos() > fb.Lit.End()
+		}
+		var bad ast.Node
+		why := ""
+		// variables of the literal that alias a captured cell (q := &t)
+		ast.Inspect(fb.Lit.Body, func(x ast.Node) bool {
+			if bad != nil {
+				return false
+			}
+			if inner, ok := x.(*ast.FuncLit); ok && inner != fb.Lit {
+				return false
+			}
+			ret, ok := x.(*ast.ReturnStmt)
+			if !ok {
+				return true
+			}
+			for _, r := range ret.Results {
+				r = ast.Unparen(r)
+				if u, ok := r.(*ast.UnaryExpr); ok && u.Op == token.AND {
+					if o := objOf(info, u.X); o != nil && captured(o) {
+						bad, why = ret, "returns &"+o.Name()+", the address of a variable of the enclosing function"
+					}
+				}
+				if o := objOf(info, r); o != nil && captured(o) && refLike(o.Type()) && !isTypeclassRecv(o.Type()) {
+					bad, why = ret, "returns the captured reference "+o.Name()
+				}
+			}
+			return true
+		})
+		if bad != nil {
+			c.Add(rule, fb.Name, bad.Pos(), core.Violated, why+": every Clone call through this instance hands out the same storage, so clones are neither independent of one another nor stable")
+		} else {
+			c.Add(rule, fb.Name, fb.Lit.Pos(), core.Discharged, "results are built inside the call")
+		}
+	}
+	c.Floor(rule, "clone closures", n, floor)
+}
+
+// ---------------------------------------------------------------- R-ITERMETA
+
+// IterMeta: the closures of an fp.Iterator value and its cached decomposition belong together.
+func IterMeta(c *core.Ctx, rule string, pkgs []*packages.Package, floor int) {
+	c.Rule(rule, "fp.Iterator carries, next to its hasNext/next closures, cached data derived from them (the concat decomposition that a later Concat flattens through). A function that assigns a closure field of an Iterator value (x.next = …, x.hasNext = …) also assigns every non-closure field of the same value; otherwise the copy keeps describing the unpatched pipeline and a later Concat bypasses the patch. (Building through MakeIterator starts from empty cached data.)")
+	// fields of fp.Iterator
+	var closureFields, dataFields []string
+	if tn, ok := c.Pkg("fp").Types.Scope().Lookup("Iterator").(*types.TypeName); ok {
+		if st, ok := tn.Type().Underlying().(*types.Struct); ok {
+			for i := 0; i < st.NumFields(); i++ {
+				if _, isFn := st.Field(i).Type().Underlying().(*types.Signature); isFn {
+					closureFields = append(closureFields, st.Field(i).Name())
+				} else {
+					dataFields = append(dataFields, st.Field(i).Name())
+				}
+			}
+		}
+	}
+	isIn := func(xs []string, s string) bool {
+		for _, x := range xs {
+			if x == s {
+				return true
+			}
+		}
+		return false
+	}
+	n := 0
+	for _, fb := range funcBodies(c, pkgs) {
+		if fb.Lit != nil || fb.Decl == nil {
+			continue
+		}
+		info := fb.Pkg.TypesInfo
+		// Iterator-returning or Iterator-receiving functions are the universe
+		relevant := false
+		if fb.Type.Results != nil {
+			for _, r := range fb.Type.Results.List {
+				if tv, ok := info.Types[r.Type]; ok && isNamed(tv.Type, "fp", "Iterator") {
+					relevant = true
+				}
+			}
+		}
+		if !relevant {
+			continue
+		}
+		n++
+		patched := map[types.Object]ast.Node{}
+		dataSet := map[types.Object]map[string]bool{}
+		ast.Inspect(fb.Body, func(x ast.Node) bool {
+			as, ok := x.(*ast.AssignStmt)
+			if !ok {
+				return true
+			}
+			for _, l := range as.Lhs {
+				sel, ok := ast.Unparen(l).(*ast.SelectorExpr)
+				if !ok {
+					continue
+				}
+				tv, ok := info.Types[sel.X]
+				if !ok || !isNamed(tv.Type, "fp", "Iterator") {
+					continue
+				}
+				o := objOf(info, sel.X)
+				if o == nil {
+					continue
+				}
+				if isIn(closureFields, sel.Sel.Name) {
+					if patched[o] == nil {
+						patched[o] = as
+					}
+				}
+				if isIn(dataFields, sel.Sel.Name) {
+					if dataSet[o] == nil {
+						dataSet[o] = map[string]bool{}
+					}
+					dataSet[o][sel.Sel.Name] = true
+				}
+			}
+			return true
+		})
+		bad := false
+		for o, at := range patched {
+			for _, f := range dataFields {
+				if !dataSet[o][f] {
+					bad = true
+					c.Add(rule, fb.Name+"/"+o.Name(), at.Pos(), core.Violated, fb.Name+" replaces a closure of the Iterator value "+o.Name()+" but leaves its "+f+" field as copied: the result still carries the decomposition of the unpatched iterator, so a later Concat/Appended iterates the raw sources and the patch (e.g. the mapping) disappears")
+				}
+			}
+		}
+		if !bad {
+			c.Add(rule, fb.Name, fb.Decl.Pos(), core.Discharged, "no closure field patched (or cached data re-established)")
+		}
+	}
+	c.Table(rule+" fields", "closures: "+joinStrs(closureFields), "cached data: "+joinStrs(dataFields))
+	c.Floor(rule, "Iterator-returning functions", n, floor)
+}
+
+func joinStrs(xs []string) string {
+	s := ""
+	for i, x := range xs {
+		if i > 0 {
+			s += ","
+		}
+		s += x
+	}
+	return s
+}
+
+// ---------------------------------------------------------------- R-TRICHOTOMY
+
+// Trichotomy: a Compare built from a less function reports "greater" only after testing less(b, a).
+func Trichotomy(c *core.Ctx, rule string, pkgs []*packages.Package, floor int) {
+	c.Rule(rule, "in a compare closure func(a, b T) int that consults a typeclass less (inst.Less / a LessFunc value), every `return k` with a non-zero constant k is the body of an if whose condition is that less applied in the matching direction — less(a,b) for k<0, less(b,a) for k>0. A fall-through `return 1` after only less(a,b) (and an equality test) claims b<a without evidence: when the equality is finer than the order, Compare(a,b) and Compare(b,a) are both positive")
+	n := 0
+	for _, bc := range binClosures(c, pkgs) {
+		if bc.res == nil {
+			continue
+		}
+		if b, ok := bc.res.Underlying().(*types.Basic); !ok || b.Kind() != types.Int {
+			continue
+		}
+		info := bc.fb.Pkg.TypesInfo
+		usesLess := nodeContains(bc.fb.Body, false, func(x ast.Node) bool {
+			call, ok := x.(*ast.CallExpr)
+			if !ok {
+				return false
+			}
+			inst, m := lessInst(info, call)
+			return inst != "" && m == "Less"
+		})
+		if !usesLess {
+			continue
+		}
+		roots := map[types.Object]bool{bc.a: true, bc.b: true}
+		// parent if of each return
+		type ctx struct {
+			ret *ast.ReturnStmt
+			in  *ast.IfStmt // the if whose body ends with ret (nil: fall-through / else branch)
+		}
+		var rets []ctx
+		var walk func(list []ast.Stmt, parent *ast.IfStmt)
+		walk = func(list []ast.Stmt, parent *ast.IfStmt) {
+			for _, st := range list {
+				switch s := st.(type) {
+				case *ast.ReturnStmt:
+					rets = append(rets, ctx{s, parent})
+				case *ast.IfStmt:
+					walk(s.Body.List, s)
+					switch e := s.Else.(type) {
+					case *ast.BlockStmt:
+						walk(e.List, nil)
+					case *ast.IfStmt:
+						walk([]ast.Stmt{e}, nil)
+					}
+				case *ast.BlockStmt:
+					walk(s.List, parent)
+				case *ast.ForStmt:
+					walk(s.Body.List, nil)
+				case *ast.RangeStmt:
+					walk(s.Body.List, nil)
+				}
+			}
+		}
+		walk(bc.fb.Body.List, nil)
+		k := 0
+		for _, r := range rets {
+			if len(r.ret.Results) != 1 {
+				continue
+			}
+			tv, ok := info.Types[r.ret.Results[0]]
+			if !ok || tv.Value == nil {
+				continue
+			}
+			sign := constSign(tv.Value)
+			if sign == 0 {
+				continue
+			}
+			k++
+			n++
+			key := bc.fb.Name + "/return#" + itoa(k)
+			if r.in == nil {
+				c.Add(rule, key, r.ret.Pos(), core.Violated, "`return "+exprString(r.ret.Results[0])+"` is reached by falling through (no test of the less function in that direction): the closure reports an order it has not established — with an equality finer than the order, Compare(a,b) = Compare(b,a) = "+exprString(r.ret.Results[0]))
+				continue
+			}
+			call, ok := ast.Unparen(r.in.Cond).(*ast.CallExpr)
+			if !ok {
+				c.Add(rule, key, r.ret.Pos(), core.Skipped, "condition form not analysed: "+exprString(r.in.Cond))
+				continue
+			}
+			inst, m := lessInst(info, call)
+			if inst == "" || m != "Less" {
+				c.Add(rule, key, r.ret.Pos(), core.Skipped, "condition is not a less test: "+exprString(r.in.Cond))
+				continue
+			}
+			r1, _ := accessorPath(info, call.Args[0], roots)
+			r2, _ := accessorPath(info, call.Args[1], roots)
+			if r1 == nil || r2 == nil || r1 == r2 {
+				c.Add(rule, key, r.ret.Pos(), core.Skipped, "arguments are not the two operands: "+exprString(call))
+				continue
+			}
+			forward := r1 == bc.a
+			if (sign < 0) == forward {
+				c.Add(rule, key, r.ret.Pos(), core.Discharged, "guarded by "+exprString(call))
+			} else {
+				c.Add(rule, key, r.ret.Pos(), core.Violated, "`return "+exprString(r.ret.Results[0])+"` under `"+exprString(call)+"`: the sign contradicts the direction that was tested")
+			}
+		}
+	}
+	c.Floor(rule, "non-zero constant returns of less-based compare closures", n, floor)
+}
+
+func constSign(v interface{ String() string }) int {
+	s := v.String()
+	if s == "0" {
+		return 0
+	}
+	if len(s) > 0 && s[0] == '-' {
+		return -1
+	}
+	for _, ch := range s {
+		if ch < '0' || ch > '9' {
+			return 0
+		}
+	}
+	return 1
+}
